@@ -13,8 +13,11 @@ RULE = ("a constructor call Namer(entries=[...]) (empty, consistent, with repeat
         "op was rejected (NamerError) or reported no change and at least one succeeded")
 MODELLED = ["Python dict (as association list with unique keys)", "str equality of names/addresses (as N equality)"]
 
-NAMES = [None, "alpha", "beta", "gamma", "delta"]
-ADDRS = [None, "/tmp/a", "/tmp/b", "10.0.0.1:5", "x"]
+NAMES = [None, "alpha", "beta", "gamma", "delta", ["n", 1]]
+ADDRS = [None, "/tmp/a", "/tmp/b", "10.0.0.1:5", "x", ["127.0.0.1", 5000]]
+UNHASHABLE = 5      # index 5 is an unhashable value (a list, e.g. a (host, port) pair that came back from JSON):
+                    # every operation must refuse it (TypeError) without changing anything; such cases are outside
+                    # the Coq model (names/addresses are N there) and are decided by the oracle alone
 # index 0 is falsy; the harness alternates None and "" for it
 
 
@@ -34,6 +37,8 @@ def directed():
         {"entries": [[1, 1], [0, 2]], "ops": []},
         {"entries": [[1, 1], [2, 0]], "ops": [], "form": "tuple"},
         {"entries": [[3, 4], [4, 3]], "ops": [["chgn", 4, 4], ["chga", 4, 4]], "form": "items"},
+        # unhashable arguments: refused without any change (oracle only)
+        {"entries": [[1, 1], [2, 2]], "ops": [["chga", 1, 5], ["chgn", 1, 5], ["add", 3, 5], ["add", 5, 3], ["rem", 5, 0], ["rem", 0, 5], ["rem", 1, 5], ["chga", 1, 3]]},
     ]
 
 
@@ -62,6 +67,10 @@ def generate(rng, tier):
             hi = rng.choice([2, 3, 4])
             a = rng.randint(0, hi) if rng.random() < 0.15 else rng.randint(1, hi)
             b = rng.randint(0, hi) if rng.random() < 0.15 else rng.randint(1, hi)
+            if rng.random() < 0.004:
+                a = UNHASHABLE
+            if rng.random() < 0.004:
+                b = UNHASHABLE
             ops.append([kind, a, b])
         out.append({"ops": ops, "entries": _entries(rng), "form": rng.choice(["list", "tuple", "gen", "items"])})
     return out
@@ -182,7 +191,13 @@ def _op(o):
     return f"({c} {coq_N(a)} {coq_N(b)})"
 
 
+def _outside_model(case):
+    return any(UNHASHABLE in (a, b) for _, a, b in case["ops"]) or any(UNHASHABLE in e for e in case.get("entries", []))
+
+
 def to_coq(case, obs):
+    if _outside_model(case):
+        return None
     pairs = lambda l: coq_list([f"({coq_N(k)}, {coq_N(v)})" for k, v in l], "N * N")
     inner = ("{| Namer.c_ops := %s; Namer.c_results := %s; Namer.c_abn := %s; Namer.c_nba := %s |}" % (
         coq_list([_op(o) for o in case["ops"]], "Namer.op"),
